@@ -190,6 +190,22 @@ class _TextCueParser:
   def _handle_string(self, token: StringToken):
     lines = token.value.split("\n")
 
+    if isinstance(self.parent, (model.Ruby, model.Rt)) and len(lines) > 1:
+      # ruby bases and ruby texts only accept spans: the line breaks are kept inside a single span
+      span = self._make_span(self.parent)
+      span.set_begin(self.text_begin)
+      for i, line in enumerate(lines):
+        if i > 0:
+          span.push_child(model.Br(self.parent.get_doc()))
+        span.push_child(model.Text(self.parent.get_doc(), line))
+      if isinstance(self.parent, model.Ruby):
+        rb = model.Rb(self.parent.get_doc())
+        rb.push_child(span)
+        self.ruby_rbc.push_child(rb)
+      else:
+        self.parent.push_child(span)
+      return
+
     for i, line in enumerate(lines):
       if i > 0:
         self.parent.push_child(model.Br(self.parent.get_doc()))
